@@ -25,6 +25,24 @@ CHECKS = {
             "exactly-once, global time order, stage order, subscription order and clock oracles on every execution.",
             "Bounded: timestamps on a 3-value grid, <=3 sources, <=3 events per source, deviation bound 1 (quick) / 2 "
             "(thorough). CPython's FIFO ready order is taken as is.", "DESIGN.md section 4, C12"),
+    "C14": ("stateless exploration of both real dispatchers on a virtual event loop with stop()/cancel() injected at every "
+            "loop step, over every producer failure placement and pool-competition mix",
+            "Every execution of BacktestingDispatcher and RealtimeDispatcher for every combination of producer failure "
+            "modes (initialize / main at once / main later / main returns / finalize), exit path (exhausted, stop from "
+            "handler, handler error with stop-on-error, stop or cancel injected at each loop step in turn; thorough: "
+            "pairs of injections), max_concurrent 1..3, due jobs + due events + idle handlers competing for the pool, "
+            "short and 500 s handlers, log level WARNING/DEBUG; oracle on producer call trace, outcome class, "
+            "promptness in virtual time, in-flight count, fault isolation counts and the process-wide log record factory.",
+            "Bounded: 2 (quick) / 3 (thorough) producers, injection within the first 400/600 loop steps, one injection "
+            "(thorough: two). Loop-step granularity; CPython FIFO ready order.", "DESIGN.md section 4, C14"),
+    "C15": ("exhaustive arrival-pattern enumeration on a virtual clock against the real RealtimeDispatcher, with handler "
+            "durations chosen by a stateless explorer",
+            "Every arrival pattern of <=3 (quick) / <=4 (thorough) events on 2 sources (arrival instant x timestamp "
+            "past/now/future, hence out-of-order chains), job sets (past/now/future), max_concurrent 1/2/50, 0-2 idle "
+            "handlers and every assignment of handler durations {0, 0.5, 3.5 poll periods}; oracle: never early, "
+            "bounded liveness, per-source order, out-of-order events dropped and reported, idle handlers only when idle.",
+            "Bounded: arrival/timestamp grid, <=4 arrivals, virtual horizon 0.3 s (30 poll periods); virtual clock "
+            "replaces utc_now and loop time.", "DESIGN.md section 4, C15"),
 }
 NOT_YET = "check not built yet (see DESIGN.md section 7 for the build order); no claim is made"
 
